@@ -15,36 +15,22 @@ var (
 	goidWho  = map[uint64]int{}
 	autoMode bool
 	spawnSeq int
-	lockHeld = map[uint64]int{}
 )
 
 // Progress is incremented by the scheduler and by every yield; a watchdog outside the bubble uses it to
 // tell a stalled run (an actor spinning or blocked on a mutex while its peer is parked) from a slow one.
 var Progress atomic.Uint64
 
-// LockDepth is called by the auto-instrumented build after a Lock (+1) and before an Unlock (-1). While a
-// goroutine holds a lock it is never parked: its yields return immediately, so critical sections are
-// atomic for the scheduler and no other actor can end up blocked on a sync.Mutex (which synctest does not
-// recognise as blocked).
-func LockDepth(delta int) {
-	g := curGoid()
-	goidMu.Lock()
-	lockHeld[g] += delta
-	if lockHeld[g] <= 0 {
-		delete(lockHeld, g)
-	}
-	goidMu.Unlock()
-}
+// LockWaitSite is the yield site of an actor waiting for a mutex in the auto-instrumented build.
+const LockWaitSite = "auto:lockwait"
 
-func holdsLock() bool {
-	if !autoMode {
-		return false
+// LockAcquire replaces mu.Lock() in the auto-instrumented build: waiting for the lock is a sequence of yields, so
+// the waiter is parked like any other actor (and picked again later) instead of blocking inside sync.Mutex, which
+// synctest does not recognise as blocked.
+func LockAcquire(try func() bool) {
+	for !try() {
+		AutoYield(LockWaitSite)
 	}
-	g := curGoid()
-	goidMu.Lock()
-	h := lockHeld[g] > 0
-	goidMu.Unlock()
-	return h
 }
 
 // EnableAuto switches goroutine-identity tracking on for the current run and forgets earlier bindings.
@@ -52,7 +38,6 @@ func EnableAuto() {
 	goidMu.Lock()
 	autoMode = true
 	goidWho = map[uint64]int{}
-	lockHeld = map[uint64]int{}
 	spawnSeq = 0
 	goidMu.Unlock()
 }
